@@ -346,3 +346,19 @@ def run(ctx):
             else:
                 ctx.ok('C01.2-fun-size-covers-all', 'size', 'nothing is appended to the measured buffer after its length is taken', ctx.where(FE, lb))
         ctx.anchor(n_sz >= 1, ENC + 'encode_new_fun_ext_impl: a buffer length feeding the Size field')
+
+    # everything that was encoded reaches the writer
+    ctx.rule('C01.1-writer-complete', 'the encoder hands its bytes to a std::io::Write with write_all: a single write() may accept only a prefix and its count is not looked at, so a "successful" encoding would be truncated', floor=0)
+    n_w1 = 0
+    for q in sorted(ctx.F.bodies):
+        if not q.startswith(ENC):
+            continue
+        WB = P.B(q)
+        for bb, t in WB.calls():
+            nm = callee_of(t)[0] or ''
+            if nm == 'std::io::Write::write' or nm.endswith('io::Write::write') or nm.endswith('io::Write::write_vectored'):
+                n_w1 += 1
+                ctx.bad('C01.1-writer-complete', q.rsplit('::', 1)[1], '%s passes the encoded bytes to Write::write, which may take only part of them, and does not look at the count returned' % q.rsplit('::', 1)[1],
+                        ctx.where(WB, bb), key='WHO:%s:partial-write' % q)
+    if n_w1 == 0:
+        ctx.ok('C01.1-writer-complete', 'encoder', 'no partial write primitive in the encoder')
